@@ -89,6 +89,12 @@ pub fn script_str(s: &[IterOp]) -> String {
             IterOp::TakeCount(k) => format!("take.{}", k),
             IterOp::Count => "count".to_string(),
             IterOp::Last => "last".to_string(),
+            IterOp::Max => "max".to_string(),
+            IterOp::Min => "min".to_string(),
+            IterOp::MaxOwned => "maxowned".to_string(),
+            IterOp::MinOwned => "minowned".to_string(),
+            IterOp::LastOwned => "lastowned".to_string(),
+            IterOp::CountOwned => "countowned".to_string(),
         })
         .collect::<Vec<_>>()
         .join(",")
@@ -108,6 +114,12 @@ pub fn parse_script(s: &str) -> Result<Vec<IterOp>, String> {
             "take" => IterOp::TakeCount(a(1)?),
             "count" => IterOp::Count,
             "last" => IterOp::Last,
+            "max" => IterOp::Max,
+            "min" => IterOp::Min,
+            "maxowned" => IterOp::MaxOwned,
+            "minowned" => IterOp::MinOwned,
+            "lastowned" => IterOp::LastOwned,
+            "countowned" => IterOp::CountOwned,
             _ => return Err(format!("bad iterator op {}", tok)),
         });
     }
@@ -204,7 +216,27 @@ impl ModelRun {
                     return fail(format!("{}: {} (the items left)", at, r), format!("{}", c));
                 }
             }
-            (IterOp::Last, IterObs::Item(x)) => {
+            (IterOp::CountOwned, IterObs::Count(c)) => {
+                let r = match &pos.0 {
+                    None => 0,
+                    Some(t) => remaining(t, 1 << 40).ok_or(("harness".to_string(), "count scripted with many items left".to_string()))?,
+                };
+                pos.0 = None;
+                self.ended = true;
+                if r as usize != *c {
+                    return fail(format!("{}: {} (the items left)", at, r), format!("{}", c));
+                }
+            }
+            (IterOp::Min, IterObs::Item(x)) | (IterOp::MinOwned, IterObs::Item(x)) => {
+                // the items left are increasing: the minimum is the next one
+                let m = pos.0.clone();
+                pos.0 = None;
+                self.ended = true;
+                if !item_eq(x, &m) {
+                    return fail(format!("{}: {} (the smallest item left, None when exhausted)", at, show_model(&m)), show_item(x));
+                }
+            }
+            (IterOp::Last, IterObs::Item(x)) | (IterOp::LastOwned, IterObs::Item(x)) | (IterOp::Max, IterObs::Item(x)) | (IterOp::MaxOwned, IterObs::Item(x)) => {
                 let m = match &pos.0 {
                     None => None,
                     Some(t) => Some(alpha::tt_words(t.n, vec![!0u64; nwords(t.n)])),
@@ -224,7 +256,7 @@ impl ModelRun {
 /// does the call walk the iterator item by item for a number of steps only the model bounds?
 fn walks(op: &IterOp) -> bool {
     match op {
-        IterOp::Count | IterOp::Last => true,
+        IterOp::Count | IterOp::Last | IterOp::Max | IterOp::Min | IterOp::MaxOwned | IterOp::MinOwned | IterOp::LastOwned | IterOp::CountOwned => true,
         IterOp::Nth(k) | IterOp::SkipNext(k) | IterOp::TakeCount(k) => *k > 4096,
         IterOp::StepBy(s, _) => *s > 4096,
         _ => false,
@@ -336,6 +368,12 @@ pub fn scripts(rem: Option<u64>, pos_value: Option<u64>, thorough: bool) -> Vec<
         }
         big.push(Count);
         big.push(Last);
+        big.push(Max);
+        big.push(Min);
+        big.push(MaxOwned);
+        big.push(MinOwned);
+        big.push(LastOwned);
+        big.push(CountOwned);
         for s in [r.saturating_sub(1).max(1), r.max(1), r + 1, usize::MAX] {
             big.push(StepBy(s, 3));
         }
@@ -363,11 +401,12 @@ pub fn scripts(rem: Option<u64>, pos_value: Option<u64>, thorough: bool) -> Vec<
         };
         let rem2 = rem.map(|r| r.saturating_sub(used));
         let second: Vec<IterOp> = match rem2 {
-            // already at the end: only polls (a walking call adds nothing and would not be bounded by the model)
-            Some(0) => vec![Next, Nth(0), Nth(1), SizeHint, SkipNext(1), TakeCount(2), StepBy(2, 2)],
+            // already at the end: only polls (a long walking call adds nothing and would not be bounded by the model);
+            // the reductions of a drained iterator return at once on a correct one
+            Some(0) => vec![Next, Nth(0), Nth(1), SizeHint, SkipNext(1), TakeCount(2), StepBy(2, 2), MaxOwned, MinOwned, LastOwned, CountOwned, Max, Min],
             Some(r) => {
                 let r = r as usize;
-                let mut v = vec![Next, Nth(0), Nth(1), Nth(r.saturating_sub(1)), Nth(r), Nth(r + 1), Nth(usize::MAX), Nth(usize::MAX - 1), Nth(usize::MAX - r), Nth(usize::MAX - used as usize), Nth((usize::MAX - used as usize).wrapping_add(1)), SkipNext(r), SkipNext(usize::MAX), Count, Last, StepBy(r.max(1), 3), SizeHint];
+                let mut v = vec![Next, Nth(0), Nth(1), Nth(r.saturating_sub(1)), Nth(r), Nth(r + 1), Nth(usize::MAX), Nth(usize::MAX - 1), Nth(usize::MAX - r), Nth(usize::MAX - used as usize), Nth((usize::MAX - used as usize).wrapping_add(1)), SkipNext(r), SkipNext(usize::MAX), Count, Last, StepBy(r.max(1), 3), SizeHint, MaxOwned, MinOwned, LastOwned, CountOwned];
                 if let Some(pv) = pos_value {
                     let v2 = pv.wrapping_add(used) as usize;
                     v.push(Nth(0usize.wrapping_sub(v2)));
